@@ -18,7 +18,7 @@ for v in $vars; do
   out=$(mktemp -d /var/tmp/verif-out.XXXXXX)
   n=0
   for i in $(seq -w 1 20); do
-    /verif/bin/ovcheck -repo "$S/repo" -verif /verif -out "$out" -tier quick C$i > "$out/C$i.log" 2>&1; rc=$?
+    ${OVCHECK:-/verif/bin/ovcheck} -repo "$S/repo" -verif ${OVVERIF:-/verif} -out "$out" -tier quick C$i > "$out/C$i.log" 2>&1; rc=$?
     if [ $rc -ne 0 ]; then n=$((n+1)); echo "BENIGN $(basename $v): C$i rc=$rc (false alarm)"; grep -A1 -E "^VIOLATION|^UNDECIDED|LOAD FAILED" "$out/C$i.log" | cut -c1-300 | head -6; fi
   done
   [ $n -eq 0 ] && echo "BENIGN $(basename $v): all 20 checks silent" || bad=1
